@@ -1,6 +1,7 @@
 import Proofs.Lemmas.ForkChoiceSim
 import Proofs.Lemmas.ForkChoicePass1
 import Zrnt.ForkChoice.Spec
+import Zrnt.ForkChoice.Old
 /-!
 # C09 — fork-choice head is the LMD-GHOST winner for every history
 
@@ -29,9 +30,8 @@ def rt (n : Nat) : Root := n * 256 ^ 31
 prefix), the live instance has a free mutex and a well-formed array (`WF`: parents at smaller indices, index map and
 array agree, one delta slot per node, best links are children / proper descendants), and no call has panicked,
 blocked or looped. -/
-theorem inv_structure (ops : List Op) (st : MState) (h : MInv st)
-    (hu : ∀ k, k ≤ ops.length → Unpruned (run st (ops.take k)).1) : MInv (run st ops).1 :=
-  Zrnt.ForkChoice.inv_structure ops st h hu
+theorem inv_structure (ops : List Op) (st : MState) (h : MInv st) (hq : Quiet st ops) : MInv (run st ops).1 :=
+  Zrnt.ForkChoice.inv_structure_quiet ops st h hq
 
 /-- **Weights / votes / chain invariants, all admissible operation sequences** (`Admissible`: non-zero roots,
 empty-slot insertions under a known root at or after its first slot, finalized checkpoint never moved — so nothing
@@ -115,7 +115,8 @@ def witHead : List Op := [
   .att 0 (rt 2) 5, .head]
 
 /-- the full-strength statement (every history) is false of the current code (OnPrune family, known finding) -/
-theorem head_eq_ghost_false : ¬ ∀ ops : List Op, HeadsAgree ops (run .none ops).2 (Spec.run none ops).2 := by
+theorem Old.head_eq_ghost_false :
+    ¬ ∀ ops : List Op, HeadsAgree ops (Zrnt.ForkChoice.Old.run .none ops).2 (Spec.run none ops).2 := by
   intro h
   have := headsAgreeB_of _ _ _ (h witHead)
   revert this
